@@ -23,8 +23,8 @@ EXTRA_IMPORTS = 'From PJ Require Import Model.Http.\n'
 RULE = ('integrations {aiohttp, flask, werkzeug} through their own test clients x Content-Type values (each documented type, with a '
         'charset parameter, upper / mixed case, spaces around, trailing ";", near misses application/jsonx, application/json-rpc2, '
         'application/foo+json, application/x-json, text/plain, the empty string, header missing) x bodies (call, call answered with an '
-        'error, call raising, unknown method, notification, batch, all-notification batch, invalid request, non-JSON text, non-UTF-8 '
-        'bytes) x status-by-error functions (default, a code table) x endpoints (main, an added endpoint with its own methods). The '
+        'error, call raising, unknown method, notification, batch, all-notification batch, invalid request, non-JSON text, a BOM-prefixed call / notification, non-UTF-8 '
+        'bytes) x status-by-error functions (default, a code table, a table answering 207 when nothing failed) x endpoints (main, an added endpoint with its own methods). The '
         'dispatcher verdict for each body is obtained independently from a plain Dispatcher with the same methods. distinct = distinct '
         '(integration, header, body, status function, endpoint); non-trivial = the media type is a documented one')
 EXHAUSTIVE = {'quick': False, 'thorough': True}
@@ -47,20 +47,26 @@ BODIES = {
     'garbage': b'{nope',
     'nonutf8': b'\xff\xfe{"jsonrpc":"2.0","id":1,"method":"add","params":[1,2]}',
     'unicode': '{"jsonrpc":"2.0","id":1,"method":"add","params":["é","中"]}'.encode('utf-8'),
+    # a byte order mark in front of an otherwise valid call / notification: decodes as UTF-8, and the dispatcher's verdict on the
+    # decoded text (not JSON: -32700) is what must be relayed
+    'bom': b'\xef\xbb\xbf{"jsonrpc":"2.0","id":1,"method":"add","params":[1,2]}',
+    'bomnote': b'\xef\xbb\xbf{"jsonrpc":"2.0","method":"add","params":[1,2]}',
 }
-STATUS = {'default': None, 'table': ([(-32601, 404), (7, 422), (-32700, 409)], 500)}
+STATUS = {'default': None, 'table': ([(-32601, 404), (7, 422), (-32700, 409)], 500, 200),
+          # a function that does not answer 200 when nothing failed (a gateway reporting 207 / 202)
+          'table207': ([(-32601, 404), (7, 422)], 500, 207)}
 
 
 def status_fn(kind):
     if kind == 'default':
         return None
-    table, other = STATUS[kind]
+    table, other, allok = STATUS[kind]
 
     def f(codes):
         for c in codes:
             if c != 0:
                 return dict(table).get(c, other)
-        return 200
+        return allok
     return f
 
 
@@ -87,7 +93,7 @@ def generate(seed, tier):
     for integ in ('aiohttp', 'flask', 'werkzeug'):
         for h in HEADERS:
             for b in BODIES:
-                for st in ('default', 'table'):
+                for st in ('default', 'table', 'table207'):
                     for ep in ('main', 'extra'):
                         if integ == 'werkzeug' and ep == 'extra':
                             continue
@@ -193,8 +199,8 @@ def encode(case, obs):
     if case['status'] == 'default':
         sfn = 'SDefault'
     else:
-        table, other = STATUS[case['status']]
-        sfn = '(SFirstError %s %s)' % (clist('(%s, %s)' % (cZ(a), cZ(b)) for a, b in table), cZ(other))
+        table, other, allok = STATUS[case['status']]
+        sfn = '(SFirstError %s %s %s)' % (clist('(%s, %s)' % (cZ(a), cZ(b)) for a, b in table), cZ(other), cZ(allok))
     ind, ncalls = obs['ind']
     if ind[0] == 'undecodable':
         b = 'BUndecodable'
